@@ -232,4 +232,55 @@ theorem no_silent_wrap_strict : NoSilentWrapStrict parseUri parseHostServ := by
           subst this
           exact absurd (numeric_of_numericReads hv) hnum
 
+/-- "Port() is p, Service() its decimal text": the decimal text of a port denotes that port, is a
+pure digit string (no sign, no blank), and `strtoul` reads it completely as `p` -/
+theorem render_parse (p : Nat) :
+    parseDec (render p) = some p ∧ isDigits (render p) = true ∧
+    (p < 2 ^ 64 → strtoulReads (render p) = some p) := by
+  have hd := isDigits_render p
+  refine ⟨by simp [parseDec, hd, decVal_render], hd, ?_⟩
+  intro hp
+  have hcap : cap64 = 18446744073709551616 := by decide
+  have hm : satVal cap64 (render p) = p := by
+    rw [satVal_eq, decVal_render, hcap]; omega
+  simp only [strtoulReads, dropWhile_isSpace_of_digits hd, signSplit_of_digits hd, hd, if_true, hm]
+  have : ¬ p ≥ cap64 := by rw [hcap]; omega
+  simp [this]
+
+/-- a text with two colons that does not start with '[' (every IPv6 literal) has no `host:port` reading -/
+theorem splitPort_none_of_colons {h : Bytes} (hb : h.head? ≠ some 0x5b) (hc : 2 ≤ h.count 0x3a) :
+    splitPort h = none := by
+  unfold splitPort
+  cases hs : splitLast 0x3a h with
+  | none => rfl
+  | some bp =>
+    obtain ⟨before, port⟩ := bp
+    obtain ⟨heq, hnp⟩ := splitLast_sound hs
+    simp only
+    have hcnt : 1 ≤ before.count 0x3a := by
+      rw [heq, List.count_append, List.count_cons_self, List.count_eq_zero_of_not_mem hnp] at hc; omega
+    have hmem : (0x3a : UInt8) ∈ before := List.count_pos_iff.mp (by omega)
+    have hhead : before.head? ≠ some 0x5b := by
+      intro hh; apply hb; rw [heq]
+      cases before with
+      | nil => simp at hh
+      | cons x xs => simpa using hh
+    split
+    · rfl
+    · simp [hhead, hmem]
+
+/-- "scheme or service names for well-known ports": `name://h` and `name://h/path` are dissected to host `h`
+and service `name` (looked up by name, no AI_NUMERICSERV) for every host text without '/' that has no
+`host:port` reading (an IPv4 literal: no colon; an IPv6 literal: two colons) and every `\w*` name that is
+not a number -/
+theorem name_spelling (h name tail : Bytes) (hne : h ≠ []) (hs : (0x2f : UInt8) ∉ h)
+    (hsp : splitPort h = none) (hw : ∀ c ∈ name, isWord c = true) (hnum : isServiceNumeric name = false)
+    (ht : tail = [] ∨ ∃ q, tail = 0x2f :: q ∧ hasLineBreak q = false) :
+    dissect (name ++ 0x3a :: 0x2f :: 0x2f :: (h ++ tail)) = .ok ⟨h, name, false⟩ := by
+  have htp : trimPath (h ++ tail) = some h := trimPath_eval hs hne ht
+  have ht' := trimServAndPath_scheme hw htp
+  have hraw : dissectRaw (name ++ 0x3a :: 0x2f :: 0x2f :: (h ++ tail)) = some ⟨h, name, false⟩ := by
+    simp [dissectRaw, ht', hsp]
+  simp [dissect, hraw, guardRange, hnum]
+
 end SockModel.Uri.Lem
